@@ -80,6 +80,9 @@ func (i *CompressImporter) Add(node *ExportNode) error {
 		i.minKeyStack = append(i.minKeyStack, key)
 		i.versionStack = append(i.versionStack, node.Version)
 	} else {
+		if len(i.minKeyStack) < 2 || len(i.versionStack) < 2 {
+			return fmt.Errorf("invalid node structure, branch node of height %d without two preceding subtrees", node.Height)
+		}
 		// use the min-key in right branch as the node key
 		node.Key = i.minKeyStack[len(i.minKeyStack)-1]
 		// leave the min-key in left branch in the stack
@@ -111,6 +114,9 @@ func deltaDecode(key, lastKey []byte) ([]byte, error) {
 	key = key[n:]
 	if shared == 0 {
 		return key, nil
+	}
+	if shared > uint64(len(lastKey)) {
+		return nil, fmt.Errorf("invalid delta encoded key, shares %d bytes with a previous key of %d bytes", shared, len(lastKey))
 	}
 
 	newKey := make([]byte, shared+uint64(len(key)))
